@@ -280,8 +280,9 @@ def view(d):
 '''
 
 
-def repro_src(seq, want):
-    """source that replays seq on the real API and asserts the required final view"""
+def repro_src(seq, want, frame=False):
+    """source that replays seq on the real API and asserts the required final view (frame=False) or only that the
+    caller's dictionaries are left alone (frame=True)"""
     lines = [REPRO_HEAD]
     M = None
     for op in seq:
@@ -290,9 +291,12 @@ def repro_src(seq, want):
             f, z, mask = supplied(op, M)
             lines.append(f"mask = {mask!r}; mask0 = None if mask is None else list(mask.items())")
             lines.append(f"d = DataSet(np.array({lit(f)}), np.array({lit(z)}), mask=mask)")
-            lines.append("assert mask is None or list(mask.items()) == mask0, ('caller mask altered', mask0, mask)")
+            if frame:
+                lines.append("assert mask is None or list(mask.items()) == mask0, ('caller mask altered', mask0, mask)")
         elif name == "set_mask":
-            lines.append(f"arg = {dict(op[1])!r}; arg0 = list(arg.items()); d.set_mask(arg); assert list(arg.items()) == arg0, ('argument altered', arg)")
+            lines.append(f"arg = {dict(op[1])!r}; arg0 = list(arg.items()); d.set_mask(arg)")
+            if frame:
+                lines.append("assert list(arg.items()) == arg0, ('argument altered', arg0, arg)")
         elif name in ("low_pass", "high_pass"):
             lines.append(f"d.{name}({op[1]!r})")
         elif name == "subtract":
@@ -311,6 +315,8 @@ def repro_src(seq, want):
             lines.append("m = d.get_mask(); m.update({k: not v for k, v in m.items()}); m[99] = True")
             lines.append("for b in (False, True):\n    z = d.get_impedances(masked=b)\n    if len(z): z[0] = 12345.0")
         M = apply_model(M, op)
+    if frame:
+        return "\n".join(lines)
     lines.append(f"want = {lit([tuple(p) for p in want])}")
     lines.append("got = view(d)")
     lines.append("assert got == [tuple(w) for w in want], (got, want)")
@@ -367,14 +373,14 @@ def run_task(args):
             d2, v = apply_real(d, op, M)
         except Exception as ex:  # noqa - the property demands that these operations succeed on every data set
             key = f"{kind}:raises {type(ex).__name__}"
-            fails.setdefault(key, (key, fn_of(op), f"{describe(seq2)} raised {type(ex).__name__}: {str(ex)[:200]}", repro_src(seq2, M2), len(seq2)))
+            fails.setdefault(key, (key, fn_of(op), f"{describe(seq2)} raised {type(ex).__name__}: {str(ex)[:200]}", repro_src(seq2, M2), (len(seq2), n)))
             return None
         if v is not None:
-            fails.setdefault(v.key, (v.key, v.function, f"{v.what}; sequence: {describe(seq2)}", repro_src(seq2, M2), len(seq2)))
+            fails.setdefault(v.key, (v.key, v.function, f"{v.what}; sequence: {describe(seq2)}", repro_src(seq2, M2, frame="mutated" in v.key), (len(seq2), n)))
         bad = check(d2, M2)
         if bad:
             key = f"{kind}:{bad[0]}"
-            fails.setdefault(key, (key, fn_of(op), f"after {describe(seq2)}: {bad[1]}", repro_src(seq2, M2), len(seq2)))
+            fails.setdefault(key, (key, fn_of(op), f"after {describe(seq2)}: {bad[1]}", repro_src(seq2, M2), (len(seq2), n)))
         if bad or v is not None:
             return None
         if d2 is not d and d is not None and op[0] != "reconstruct":
@@ -382,7 +388,7 @@ def run_task(args):
             bad = check(d, M)
             if bad:
                 key = f"{kind}:original-changed:{bad[0]}"
-                fails.setdefault(key, (key, fn_of(op), f"{describe(seq2)} changed the original: {bad[1]}", repro_src(seq2, M2), len(seq2)))
+                fails.setdefault(key, (key, fn_of(op), f"{describe(seq2)} changed the original: {bad[1]}", repro_src(seq2, M2), (len(seq2), n)))
                 return None
         return d2, M2
 
